@@ -8,28 +8,28 @@ HERE = os.path.dirname(os.path.dirname(os.path.abspath(__file__)))
 # id -> (technique, level text, level note (what is NOT decided / trusted base), design ref)
 T = {
     "C01": ("ownership (alias) dataflow over the clone path + effect summaries + who-may-write, ast/CFG",
-            "Every value stored on a clone (optimizer state, networks, attributes) is shown FRESH by an ownership dataflow on all paths of clone/copy_attributes/EvolvableModule.clone/select; no store into the parent; carried state passes the attribute-name filter; callable helper objects and non-persistent buffers do not escape the copy; hooks run by clone do not re-derive online networks. Structural necessary conditions, exhaustively over all sites.",
+            "Every value stored on a clone (optimizer state, networks, attributes) is shown FRESH by an ownership dataflow on all paths of clone/copy_attributes/EvolvableModule.clone/select; no store into the parent; carried state passes the attribute-name filter; callable helper objects and non-persistent buffers do not escape the copy; hooks run by clone do not re-derive online networks. Structural necessary conditions, exhaustively over all sites. Hooks run by clone() precede the attribute copy (C01.15).",
             "Not decided: equality of greedy actions/updates (runtime values). Trusted: torch copy semantics listed in evidence; torch Optimizer.load_state_dict summary re-derived from installed source each run."),
     "C02": ("CFG post-dominance / def-use provenance over Mutations + registry cross-check",
             "Optimizer re-creation post-dominates every parameter replacement in each mutation function; shared networks are rebuilt from the same offspring; critics receive the policy's applied mutation; registry completeness against __init__; a mutation reported as None leaves the networks untouched; fallback results of architecture mutations are applied.",
             "Not decided: identity of optimizer params with live tensors at run time; that a learn step moves parameters."),
     "C03": ("guarded-write dominance with comparison direction, constructor->attribute flow (init_dict fidelity), typestate of forwarded mutation methods",
-            "Every architecture write in every @mutation method is dominated by a comparison of that quantity with its own bound in the right direction; init_dict is an identity flow of constructor parameters; recreate contract; __init__ and the rebuild call the builders with the same keywords, values and layer-size formulas; validators accept numpy integers; forwarded mutation wrappers are re-installed when a sub-module is replaced.",
+            "Every architecture write in every @mutation method is dominated by a comparison of that quantity with its own bound in the right direction; init_dict is an identity flow of constructor parameters; recreate contract; __init__ and the rebuild call the builders with the same keywords, values and layer-size formulas; validators accept numpy integers; forwarded mutation wrappers are re-installed when a sub-module is replaced. Optional numeric arguments of mutation methods are tested against None only; constructor parameters shared with the base class are forwarded; heads are rebuilt under the name they were built with; constructors accept the numpy integers their own mutations produce.",
             "Not decided: finiteness/shape of outputs; exhaustive architecture walks."),
     "C04": ("slice/argument-role normal forms over preserve functions and all recreate sites",
-            "The common index range is copied with the same index on both sides, old->new, at every recreate site; buffers and train/eval mode are carried over; head build and rebuild agree; the live description is used; live weights are never re-initialised by a rebuild; clone overrides are complete.",
+            "The common index range is copied with the same index on both sides, old->new, at every recreate site; buffers and train/eval mode are carried over; head build and rebuild agree; the live description is used; live weights are never re-initialised by a rebuild; clone overrides are complete. A module re-created by calling its class gets its complete constructor description (never net_config); clone() keeps the train / eval mode.",
             "Not decided: output equality after a no-op mutation."),
     "C05": ("finite ordering algebra (argsort/argmax/[-1]) + linear path counts + effect summaries",
             "Elite index evaluates to Idx(best) of the mean of the last eval_loop scores; winner is best-ranked of the drawn; population size by path count; fresh indices, applied by clone() after the attribute copy and forwarded by the agent wrapper; all C01 obligations for the copies.",
             "Not decided: faithfulness of each copy (C01); tie behaviour beyond one of the maxima."),
     "C06": ("term normal form + clip recogniser + ownership + registry multiplicity",
-            "RLParameter.mutate is value*factor clipped and cast; the base value is re-read from the individual; every optimizer registered for a mutated lr is rebuilt (or every parameter group updated); optimizers of multi-lr algorithms are registered under the lr named at their construction site.",
+            "RLParameter.mutate is value*factor clipped and cast; the base value is re-read from the individual; every optimizer registered for a mutated lr is rebuilt (or every parameter group updated); optimizers of multi-lr algorithms are registered under the lr named at their construction site. Post-mutation hooks run after every kind of mutation (shared from C02.3); the stored optimizer keyword arguments are never written to and every group receives the lr argument.",
             "Not decided: numeric drift over generations."),
     "C07": ("writer/reader key-set agreement, CFG ordering, typestate, alias attributes",
-            "Every checkpoint key read by both loaders is written by the writer; rebuild->load->optimizers order; weight-copying hooks vs load order; nothing rewrites restored optimizer state or attributes afterwards (hook write-sets); carried counters pass inspect_attributes' name filter; change_activation siblings update init_dict; parameter snapshots are detached.",
+            "Every checkpoint key read by both loaders is written by the writer; rebuild->load->optimizers order; weight-copying hooks vs load order; nothing rewrites restored optimizer state or attributes afterwards (hook write-sets); carried counters pass inspect_attributes' name filter; change_activation siblings update init_dict; parameter snapshots are detached. Both loaders rebuild every saved network unconditionally; the registry comparison used by the loader does not read run-time hyper-parameter state.",
             "Not decided: equality of later learning trajectories."),
     "C08": ("polynomial normal form of the loss target over origin-tagged atoms (def-use, interprocedural parameter binding), done-substitution masking check, soft-update identity, typestate for parameterless modules, CFG post-dominance",
-            "For 7 learners: target = reward + gamma^k*Q_shared(next) at done=0 and loses every next_obs term at done=1 (polynomial substitution); shared calls under no_grad; soft update identical to tau*e+(1-tau)*t, paired with the registry, non-vacuous, on every learn path, after the optimizer step; the selecting network of double-Q reads the next state; target networks own their tensors (deep clone, no assign=True).",
+            "For 7 learners: target = reward + gamma^k*Q_shared(next) at done=0 and loses every next_obs term at done=1 (polynomial substitution); shared calls under no_grad; soft update identical to tau*e+(1-tau)*t, paired with the registry, non-vacuous, on every learn path, after the optimizer step; the selecting network of double-Q reads the next state; target networks own their tensors (deep clone, no assign=True). Delayed-update counters advance once per learn step and agent; no in-place write into a batch tensor precedes its use as network input; the categorical target obligations of C18 are shared.",
             "Not decided: numeric loss / weights. Trusted: copy_ in place; parameters() lists registered Parameters only."),
     "C09": ("linear-integer slice arithmetic, ownership of sampled batches, reset completeness",
             "Slice lengths of the wrap-around write agree; cursor/size update forms; sample domain from fill level; batches are copies; clear() resets every field add() advances.",
@@ -38,31 +38,31 @@ T = {
             "No reward of a later window element is read unless every earlier element's done was tested; gamma exponent = position; store iff return.",
             "Not decided: wrap-around equality of both buffers as data."),
     "C11": ("loop-structure and who-may-write checks on the segment trees, term normal form of weights",
-            "Ancestors recomputed to the root; both trees written together with priority**alpha; weight formula normal form; pointer modulus agreement.",
+            "Ancestors recomputed to the root; both trees written together with priority**alpha; weight formula normal form; pointer modulus agreement. Every (index, priority) pair of update_priorities reaches both trees in order; importance weights are materialised in a fixed float type.",
             "Not decided: index < size at floating-point boundaries; sampling frequencies."),
     "C12": ("reaching definitions / dead stores in the worker, sibling agreement of shared-memory branches, per-agent reset condition",
             "The reset's observation reaches the shared-memory publisher; placeholders are stored; reset condition combines termination and truncation per agent; a seed is tested against None only; one fresh info-mask array per key.",
             "Not decided: equality with N independent environments for every interleaving."),
     "C13": ("typestate (AsyncState) on a CFG with exceptional edges",
-            "Guards dominate pipe I/O in every *_async/*_wait; every exit (including exceptional) of *_wait restores DEFAULT; error transport and close paths; receive loops visit every pipe; the timeout handler catches the type the waits raise.",
+            "Guards dominate pipe I/O in every *_async/*_wait; every exit (including exceptional) of *_wait restores DEFAULT; error transport and close paths; receive loops visit every pipe; the timeout handler catches the type the waits raise. close() hands every shutdown option on to close_extras; terminate / join of a worker depend on that worker only.",
             "Not decided: wall-clock bounds; process liveness. may-raise = calls, subscripts, raise."),
     "C14": ("def-use from mask to argmax with polarity, bound-rank lint, array-kind propagation",
-            "On every masked path the arg-max operand passed the mask; continuous clip bounds are not projected to one dimension; batch sizes are read from a tensor leaf of dict/tuple observations; IPPO group masks are combined agent-major; the clip space is looked up by agent id; the returned action keeps its axes.",
+            "On every masked path the arg-max operand passed the mask; continuous clip bounds are not projected to one dimension; batch sizes are read from a tensor leaf of dict/tuple observations; IPPO group masks are combined agent-major; the clip space is looked up by agent id; the returned action keeps its axes. Bounded output activations are rescaled from their true ranges; the noisy / noise-free switch follows the training argument.",
             "Not decided: batch shape; best allowed action as a value."),
     "C15": ("dispatch exhaustiveness / sibling agreement over space kinds, rank-arithmetic lint, term normal form of image scaling",
-            "The six dispatchers cover the same closed set of space kinds or raise; rank comparisons are well-typed; scaling is (x-low)/(high-low); container recursion passes member, sub-space, device and flag; the preparation path is pure (no in-place writes to the input); agents are visited in agent_ids order.",
+            "The six dispatchers cover the same closed set of space kinds or raise; rank comparisons are well-typed; scaling is (x-low)/(high-low); container recursion passes member, sub-space, device and flag; the preparation path is pure (no in-place writes to the input); agents are visited in agent_ids order. No branch of the preparation path tests observed values; normalisation bounds flow from space.low / high without reduction; shared-policy outputs are cut in the order their observations were stacked.",
             "Not decided: row-by-row equality; batch independence of actions."),
     "C16": ("handler-table agreement, parameter-dependence (def-use) of log_prob, reduction axes, squash correction pairing",
-            "log_prob's density argument depends on the passed action on every path; reductions over the component axis; squash correction iff squash_output; the action axis of single-component spaces is restored before log_prob; the distribution wrapper is re-created with the constructor's keywords; masks are used as given.",
+            "log_prob's density argument depends on the passed action on every path; reductions over the component axis; squash correction iff squash_output; the action axis of single-component spaces is restored before log_prob; the distribution wrapper is re-created with the constructor's keywords; masks are used as given. PPO's (action, log_prob) pair comes from the policy head, not from a forward that rescales the action.",
             "Not decided: that the number equals the density (torch.distributions semantics)."),
     "C17": ("term normal form with loop-carried Rec atoms, done-substitution masking, axis-order signatures of the flattened rollout",
-            "GAE recursion matches delta/A definitions; next-step terms vanish at done=1; the six minibatch tensors share one flattening signature; experience components are grouped in agent_ids order with per-field stacking axes; every preparation call passes the normalisation flag.",
+            "GAE recursion matches delta/A definitions; next-step terms vanish at done=1; the six minibatch tensors share one flattening signature; experience components are grouped in agent_ids order with per-field stacking axes; every preparation call passes the normalisation flag. The flattening order of the rollout is derived from flatten_experiences for every rank; the coefficient of A_(t+1) is lambda times that of V_(t+1) in every alternative; the loop covers the whole rollout.",
             "Not decided: numeric agreement with the definition."),
     "C18": ("term normal form of t_z / b / neighbour weights, index-weight pairing, bounded-index typestate",
-            "t_z form and clamp before b; complementary neighbour weights; fix-up order; offsets stride num_atoms; index clamp before index_add_; batch coherence and update ordering shared from C08.",
+            "t_z form and clamp before b; complementary neighbour weights; fix-up order; offsets stride num_atoms; index clamp before index_add_; batch coherence and update ordering shared from C08. Every indexed write of mass into the projection buffer accumulates.",
             "Not decided: mass/mean conservation as numeric facts."),
     "C19": ("ordered-product normal form of the Sherman-Morrison update, sibling agreement UCB/TS, hook registration",
-            "S <- S - (S v v^T S)/(1 + v^T S v) with v the chosen arm's feature; init lambda*I(numel of output layer); init I/lambda (numel of output layer); re-init after mutation; nothing rescales the feature matrix between the gradient loop and the update; clones own the matrix (C01.3 shared).",
+            "S <- S - (S v v^T S)/(1 + v^T S v) with v the chosen arm's feature; init lambda*I(numel of output layer); init I/lambda (numel of output layer); re-init after mutation; nothing rescales the feature matrix between the gradient loop and the update; clones own the matrix (C01.3 shared). Every entry point that applies an architecture mutation runs the bandit's hooks on every path to a normal return.",
             "Not decided: positive definiteness, numerical drift."),
     "C20": ("producer/consumer agreement sampler->learn, CFG step counters, Protocol-isinstance rule, sibling cross-check rollout vs test(), channel-order typestate (forward may-analysis specialised on swap_channels), guard/operand agreement",
             "Batch structure accepted by every reachable learn(); one counter increment per env.step; fitness appended once per test(); population = mutation(select(pop)) with the C05 obligations on size, indices and elite; sampled indices are requested where they are read; every observation is converted to channels-first exactly once; stacks over filtered lists are guarded by that list; score arrays and the rewards added agree on their ids.",
@@ -87,7 +87,7 @@ def main() -> None:
                 "engine": "agilint",
                 "level_claimed": {
                     "category": "other",
-                    "text": "static analysis (no execution): exhaustive evaluation of repository-specific structural obligations over all enumerated sites. " + text,
+                    "text": "static analysis (no execution): exhaustive evaluation of repository-specific structural obligations over all enumerated sites of the normalised program (front end: private-helper inlining, guard clauses, conditional assignments, comparison / branch orientation). " + text,
                     "design_ref": f"DESIGN.md section 4, {pid}",
                 },
                 "level_note": note,
